@@ -171,7 +171,10 @@ EXTRA5 = {
  "C09": " Padding class with quotes, backslashes and percent signs. get-multi: 2-5 sessions' streams written at the same time (a message appears on its own session's stream only). get-stalled (one case in forty): the peer takes no bytes for 0.3 / 5.6 s during one event's flush while more events are sent - Write and Flush calls on one stream never overlap.",
  "C10": " Servers with sessions disabled and event-stream answers; notification payloads contain printf verbs.",
 }
-for _e in (EXTRA, EXTRA3, EXTRA4, EXTRA5):
+EXTRA6 = {
+ "C20": " The bursts of concurrent initialize / DELETE of TestC04Concurrent run under the detector as well (they exposed a race of the unchanged tree, repaired).",
+}
+for _e in (EXTRA, EXTRA3, EXTRA4, EXTRA5, EXTRA6):
     for _k, _v in _e.items():
         _t = list(T[_k]); _t[2] = _t[2] + _v; T[_k] = tuple(_t)
 
